@@ -103,3 +103,20 @@ func Replay(path string) int {
 	fn(&Ctx{R: r, Tier: "quick", Args: []string{"--replay", path}})
 	return r.Finish()
 }
+
+func init() {
+	SetupFuncs = append(SetupFuncs, func() error {
+		// warm the Go build cache: the real binary and one instrumented harness
+		if _, err := vc.BuildGrog("grog", nil); err != nil {
+			return err
+		}
+		ov := vc.NewOverlay()
+		for _, p := range []string{"vrep", "c17"} {
+			if err := ov.AddHarness(p); err != nil {
+				return err
+			}
+		}
+		_, err := vc.BuildHarnessTest("c17", ov, "c17", false)
+		return err
+	})
+}
